@@ -14,6 +14,7 @@ replay script; the verdict comes from the replays.
 import json, os
 import vlib
 from vlib import Check, Broken, log
+from checks import session_common
 
 TOL = 1e-10
 
@@ -222,6 +223,15 @@ def run(tier):
     ck.cov["globals_pairs"] = len(scripts)
     ck.sample({"module": "Globals", "script": scripts[len(scripts) // 2]})
     log("[C10] Globals: %d (prefix, observed) pairs" % len(scripts))
+
+    # ---------------------------------------------------------------- Session (cross-module freshness)
+    ss = session_common.run_sessions(ck, tier)
+    for ses, d in ss["fresh"]:
+        if not (d <= 1e-10):
+            ck.disagree({"module": "Session", "what": "final estimation differs from a session rebuilt from the final content"},
+                        {"session": [h["op"]["name"] for h in ses["hist"]], "max_abs_diff": d})
+    states += ss["states"]; trans += ss["transitions"]; nscripts += len(ss["fresh"])
+    ck.cov["session_final_estimations_compared"] = len(ss["fresh"])
 
     ck.cov["states"] = states
     ck.cov["transitions"] = trans
